@@ -137,10 +137,39 @@ def frac_threshold(rng):
     return Fraction(p, q)
 
 
+def _double_products(measure, t, n):
+    """The products a size / prefix / overlap bound may form in double
+    precision for threshold t and size n (plain floating-point facts)."""
+    if measure == 'JACCARD':
+        return [t * n, n / t, (t / (1 + t)) * n]
+    if measure == 'COSINE':
+        return [t * t * n, n / (t * t)]
+    if measure == 'DICE':
+        return [(t / (2 - t)) * n, ((2 - t) / t) * n, (t / 2) * n]
+    return [t * n]
+
+
+def _anomalous(measure, t, n, m):
+    """Does some double product differ from the exact rational value, which
+    is an integer?"""
+    tf = float(t)
+    exact = [_ratio(measure, t) * n, n / _ratio(measure, t)]
+    for d in _double_products(measure, tf, n):
+        for e in exact:
+            if e.denominator == 1 and abs(d - float(e)) < 1e-6 and \
+                    d != float(e):
+                return True
+    return False
+
+
 def treacherous_pair(rng, measure, max_n):
     """(t, n, m): t*n (resp. the cosine / dice analogue) is an integer m in
-    exact arithmetic, so the double product may land on either side of m."""
-    for _ in range(60):
+    exact arithmetic, so the double product may land on either side of m.
+    With probability 0.6 only pairs whose double product really is off the
+    integer are accepted."""
+    want_anomaly = rng.random() < 0.6
+    fallback = None
+    for _ in range(150):
         t = decimal_threshold(rng)
         r = _ratio(measure, t)
         d = r.denominator
@@ -149,8 +178,10 @@ def treacherous_pair(rng, measure, max_n):
             n = d * mult
             m = int(r * n)
             if 1 <= m <= n:
-                return float(t), n, m
-    return None
+                if not want_anomaly or _anomalous(measure, t, n, m):
+                    return float(t), n, m
+                fallback = (float(t), n, m)
+    return fallback
 
 
 def gen_threshold(rng, measure, prof):
